@@ -412,6 +412,10 @@ def gen_params(rng, spec):
         # and the observed run may keep the state and/or the logs of the earlier one
         if rng.random() < 0.4:
             p["initState"], p["initLog"] = rng.choice([(True, False), (False, True), (False, False)])
+    elif rng.random() < 0.05:
+        # the very first run of a freshly built model with an initialisation flag off (the constructors'
+        # defaults are then what the run starts from)
+        p["initState"], p["initLog"] = rng.choice([(True, False), (False, True), (False, False)])
     return p
 
 
